@@ -111,7 +111,7 @@ func randCall(rng *rand.Rand, clock *int64, step *int64) string {
 }
 
 func gen(rng *rand.Rand, tier core.Tier, emit core.Emit) {
-	n := 120
+	n := 500
 	if tier == core.Thorough {
 		n = 3000
 	}
